@@ -158,16 +158,17 @@ KSortList(len, mode, bi) ==
                   [] mode = 4 -> 1
   IN  [ j \in 1..len |-> KEnc(pts[idx(j)], IF mode = 2 THEN j ELSE 0) ]
 
+StepKeys == IF Thorough THEN 1..Len(KeyPool) ELSE { 1, 4, 8, 10 }
 Cases ==
-       { << "step", ki, op, tk >> : ki \in 1..Len(KeyPool), op \in {1, 2, 5}, tk \in 1..NTweaks }
+       { << "step", ki, op, tk >> : ki \in StepKeys, op \in {1, 2, 5}, tk \in 1..NTweaks }
   \cup { << "step", ki, op, 1 >> : ki \in 1..Len(KeyPool), op \in {3, 4} }
-  \cup { << "rchain", j >> : j \in 1..(IF Thorough THEN 1500 ELSE 100) }
+  \cup { << "rchain", j >> : j \in 1..(IF Thorough THEN 1500 ELSE 40) }
   \cup { << "create", v, w >> : v \in { Zero, One, Sub(N, One), N, Add(N, One), KMax256, HalfN, Pow2(255), Mod(FromBytesBE(Rnd32(44)), N), Sub(P, One) }, w \in {0, 1} }
   \cup { << "comb", k, bi, enc >> : k \in 1..Len(CombLists), bi \in 1..2, enc \in {0, 1} }
   \cup { << "cmp", a, b, bi >> : a \in { -3, -2, -1, 1, 2, 3, 5 }, b \in { -3, -2, -1, 1, 2, 3, 5 }, bi \in 1..2 }
-  \cup { << "sort", len, mode, bi, al >> : len \in SortLens, mode \in 1..4, bi \in 1..2, al \in {0} }
+  \cup { << "sort", len, mode, bi, al >> : len \in SortLens, mode \in 1..4, bi \in (IF Thorough THEN 1..2 ELSE {2}), al \in {0} }
   \cup { << "sort", len, 1, 2, al >> : len \in { 5, 41, 64 }, al \in { 2, 3 } }
-  \cup { << "tchk", ki, tk, mut >> : ki \in { 1, 4, 8, 9 }, tk \in { 1, 2, 3, 4, 5, 8, 13, 19 }, mut \in 0..6 }
+  \cup { << "tchk", ki, tk, mut >> : ki \in (IF Thorough THEN { 1, 4, 8, 9 } ELSE { 4, 8 }), tk \in { 1, 2, 3, 4, 5, 8, 13, 19 }, mut \in 0..6 }
 
 ExpandTchk(ki, tk, mut) ==
   LET d == KaSecEven(KeyPool[ki])  Q == PMulG(d)
@@ -189,7 +190,7 @@ NN == ToNat(N)
 TinyScalars == { FromNat(x) : x \in 0..(NN + 2) } \cup { KMax256 }
 TinyOps == { [ op |-> o, t |-> KB(t) ] : o \in {1, 2, 5}, t \in TinyScalars } \cup { [ op |-> 3, t |-> << >> ], [ op |-> 4, t |-> << >> ] }
 TinyPt(k) == IF k > 0 THEN PMulG(FromNat(k)) ELSE PNeg(PMulG(FromNat(0 - k)))
-TinyListMax == IF NN > 20 THEN 2 ELSE 3
+TinyListMax == IF NN > 20 THEN 2 ELSE IF Thorough \/ NN < 10 THEN 3 ELSE 2
 TinyLists == UNION { [ 1..n -> 1..(NN - 1) ] : n \in 0..TinyListMax }
 TinyCases ==
        { << "tcomb", l >> : l \in TinyLists }
@@ -247,9 +248,11 @@ InvCombine == (phase = "done" /\ cur[1] = "comb") =>
            /\ rec.out.ret = 1 => rec.out.pk = Ser33(PMulG(s))
 \* the tweak check accepts exactly the pair the tweak produces
 InvTchk == (phase = "done" /\ cur[1] = "tchk") =>
-  LET tv == FromBytesBE(rec.in.t) IN
-  /\ (cur[4] = 0 /\ cur[3] \notin { 4, 5, 8 }) => rec.out.ret = 1
-  /\ cur[4] \in { 1, 2, 3, 4, 5 } => rec.out.ret = 0
+  LET d == KaSecEven(KeyPool[cur[2]])  t == FromBytesBE(rec.in.t) IN
+  /\ cur[4] = 0 => (rec.out.ret = 1 <=> (Lt(t, N) /\ ~IsZero(SAdd(d, t))))   \* the secret-side characterisation of the public-side check
+  /\ cur[4] \in { 1, 2 } => rec.out.ret = 0
+  /\ (cur[4] \in { 3, 4 } /\ ~IsZero(t)) => rec.out.ret = 0                   \* (with the zero tweak the untweaked key IS the result;
+                                                                            \*  mut 5 is accepted exactly when the tweaked key has odd y)
 Emit == phase = "done" => EmitRecord(rec)
 
 -----------------------------------------------------------------------------
@@ -273,7 +276,7 @@ KRet == phase = "kcall" /\ phase' = "k" /\ cur' = cur /\ rec' = << >>
 KNext == KCall \/ KRet
 KAt == phase = "kcall"
 \* THE property: the public key is always the public key of the secret key
-KPaired == cur = KDead \/ (ValidSecret(cur[1]) /\ cur[2] = PMulG(cur[1]))
+KPaired == phase \in { "k", "kcall" } => (cur = KDead \/ (ValidSecret(cur[1]) /\ cur[2] = PMulG(cur[1])))
 KStepThm == (KAt /\ rec.e = "KeyChain") => ThmChain(rec.in, rec.out)
 \* the machine and the record function agree (the K machine is the chain semantics, one step at a time)
 KConsistent == KAt => rec.out = Out(rec)
@@ -286,6 +289,10 @@ KFailures == (KAt /\ rec.e = "KeyChain") =>
                      \/ op.op \in {1, 5} /\ Lt(t, N) /\ IsZero(SAdd(base, t))
                      \/ op.op = 2 /\ IsZero(t)
 KEmit == KAt => EmitRecord(rec)
+\* both machines in one TLC run (small groups): the paired machine and the Pick/Eval cases
+XInit == KInit \/ Init
+XNext == KNext \/ Next
+XEmit == (KAt \/ phase = "done") => EmitRecord(rec)
 -----------------------------------------------------------------------------
 TraceEvents == LoadTrace
 TInit == phase = "pick" /\ cur = 0 /\ rec = TRUE
